@@ -185,7 +185,7 @@ def u_pair(rec, variant):
                         return {"what": f"equivalent specifications give different values in period {t}", "observed": b, "expected": a, "A": A.name, "B": B.name, "index_A": list(ia), "index_B": list(ib), "inputs": v}
                 return None
 
-            full = sj.x_eq(ea, eb) if maps is not None else None
+            full = (lambda ea=ea, eb=eb: sj.x_eq(ea, eb)) if maps is not None else None
             rec.prove(f"V_A[{t}]{list(ia)}==V_B[{t}]{list(ib)}", sj.x_eq(ea2, eb2), assume, replay=composed_fallback(rec, S, assume, full, replay))
             n_cmp += 1
         prev = pairs
